@@ -31,7 +31,9 @@ type FTask struct {
 // FailCase is a C09 case.
 type FailCase struct {
 	// ProjDir names the directory holding the spokfile ("" = proj)
-	ProjDir string   `json:"proj_dir,omitempty"`
+	ProjDir string `json:"proj_dir,omitempty"`
+	// Invoke: how spok is pointed at the project (sandbox.Box.Invoke)
+	Invoke  string   `json:"invoke,omitempty"`
 	Tasks   []FTask  `json:"tasks"`
 	Request []string `json:"request"`
 	Flags   []string `json:"flags"`
@@ -54,6 +56,7 @@ var failFlagSets = [][]string{nil, {"--quiet"}, {"--json"}, {"--force"}, {"--qui
 func genFail(t *rapid.T) FailCase {
 	c := genFailBody(t)
 	c.ProjDir = genProjDir(t)
+	c.Invoke = genInvoke(t)
 	if c.Prime && rapid.IntRange(0, 4).Draw(t, "ro_cache") == 0 {
 		c.ROCache = rapid.SampledFrom([]string{"file", "dir"}).Draw(t, "ro_cache_kind")
 	}
@@ -171,7 +174,7 @@ func (c FailCase) failedTasks(log []string) []string {
 }
 
 func execFail(s *ev.Shard, b *sandbox.Box, c FailCase) *rp.Fail {
-	if err := b.ResetAs(c.ProjDir); err != nil {
+	if err := b.ResetFor(c.ProjDir, c.Invoke); err != nil {
 		return &rp.Fail{Sig: "harness", Msg: err.Error()}
 	}
 	src := c.source()
